@@ -46,6 +46,7 @@ fn spawn_worker_thread(
 }
 
 fn execute(mut command: IoCommand) -> CompleteIo {
+    let mut short_completions = 0;
     let result = loop {
         let res = match command.kind {
             IoKind::Read(fd, page_index, ref mut page) => unsafe {
@@ -85,7 +86,10 @@ fn execute(mut command: IoCommand) -> CompleteIo {
         match command.kind.get_result(res) {
             IoKindResult::Ok => break Ok(()),
             IoKindResult::Err => break Err(std::io::Error::last_os_error()),
-            IoKindResult::Retry => (),
+            IoKindResult::Retry if res >= 0 && short_completions >= super::MAX_SHORT_COMPLETIONS => {
+                break Err(super::short_completion_error())
+            }
+            IoKindResult::Retry => short_completions += (res >= 0) as u32,
         }
     };
 
